@@ -85,9 +85,11 @@ def _impersonate_options(
     original_options = dict(tcp.options)
     mss_hint = int_only(original_options.get("MSS"))
     window_scale_hint = int_only(original_options.get("WScale"))
-    timestamp_hint = [
-        int_only(value) for value in original_options.get("Timestamp", (None, None))
-    ]
+    timestamp_option = original_options.get("Timestamp")
+    # A damaged option (wrong length) comes out of Scapy as raw bytes: no hint
+    if not (isinstance(timestamp_option, tuple) and len(timestamp_option) == 2):
+        timestamp_option = (None, None)
+    timestamp_hint = [int_only(value) for value in timestamp_option]
 
     options = []
 
